@@ -1,0 +1,2703 @@
+	.file	"test_list.c"
+	.text
+.Ltext0:
+	.file 0 "/repo/aldor/aldor/src" "test/test_list.c"
+	.section	.rodata
+.LC0:
+	.string	"testList"
+	.text
+	.globl	listTestSuite
+	.type	listTestSuite, @function
+listTestSuite:
+.LFB0:
+	.file 1 "test/test_list.c"
+	.loc 1 12 1
+	.cfi_startproc
+	pushq	%rbp
+	.cfi_def_cfa_offset 16
+	.cfi_offset 6, -16
+	movq	%rsp, %rbp
+	.cfi_def_cfa_register 6
+	.loc 1 13 2
+	call	init@PLT
+	.loc 1 14 2
+	leaq	testList(%rip), %rax
+	movq	%rax, %rsi
+	leaq	.LC0(%rip), %rax
+	movq	%rax, %rdi
+	call	showTest@PLT
+	.loc 1 15 2
+	call	fini@PLT
+	.loc 1 16 1
+	nop
+	popq	%rbp
+	.cfi_def_cfa 7, 8
+	ret
+	.cfi_endproc
+.LFE0:
+	.size	listTestSuite, .-listTestSuite
+	.section	.rodata
+.LC1:
+	.string	""
+.LC2:
+	.string	"L"
+.LC3:
+	.string	"0"
+.LC4:
+	.string	"1"
+.LC5:
+	.string	"2"
+.LC6:
+	.string	"eq0"
+	.text
+	.type	testList, @function
+testList:
+.LFB1:
+	.loc 1 20 1
+	.cfi_startproc
+	pushq	%rbp
+	.cfi_def_cfa_offset 16
+	.cfi_offset 6, -16
+	movq	%rsp, %rbp
+	.cfi_def_cfa_register 6
+	pushq	%r12
+	pushq	%rbx
+	subq	$16, %rsp
+	.cfi_offset 12, -24
+	.cfi_offset 3, -32
+	.loc 1 23 23
+	movq	AInt_listPointer(%rip), %rax
+	movq	32(%rax), %rdx
+	movl	$0, %edi
+	movl	$0, %eax
+	call	*%rdx
+.LVL0:
+	movq	%rax, -24(%rbp)
+	.loc 1 24 39
+	movq	AInt_listPointer(%rip), %rax
+	movq	128(%rax), %rdx
+	movq	-24(%rbp), %rax
+	movq	%rax, %rdi
+	call	*%rdx
+.LVL1:
+	.loc 1 24 2
+	movl	%eax, %edx
+	movl	$0, %esi
+	leaq	.LC1(%rip), %rax
+	movq	%rax, %rdi
+	call	testIntEqual@PLT
+	.loc 1 26 23
+	movq	AInt_listPointer(%rip), %rax
+	movq	32(%rax), %rdx
+	movl	$0, %esi
+	movl	$1, %edi
+	movl	$0, %eax
+	call	*%rdx
+.LVL2:
+	movq	%rax, -24(%rbp)
+	.loc 1 27 39
+	movq	AInt_listPointer(%rip), %rax
+	movq	128(%rax), %rdx
+	movq	-24(%rbp), %rax
+	movq	%rax, %rdi
+	call	*%rdx
+.LVL3:
+	.loc 1 27 2
+	movl	%eax, %edx
+	movl	$1, %esi
+	leaq	.LC1(%rip), %rax
+	movq	%rax, %rdi
+	call	testIntEqual@PLT
+	.loc 1 28 26
+	movq	-24(%rbp), %rax
+	movq	(%rax), %rax
+	.loc 1 28 2
+	movl	%eax, %edx
+	movl	$1, %esi
+	leaq	.LC1(%rip), %rax
+	movq	%rax, %rdi
+	call	testIntEqual@PLT
+	.loc 1 30 23
+	movq	AInt_listPointer(%rip), %rax
+	movq	32(%rax), %rcx
+	movl	$0, %edx
+	movl	$2, %esi
+	movl	$1, %edi
+	movl	$0, %eax
+	call	*%rcx
+.LVL4:
+	movq	%rax, -24(%rbp)
+	.loc 1 31 39
+	movq	AInt_listPointer(%rip), %rax
+	movq	128(%rax), %rdx
+	movq	-24(%rbp), %rax
+	movq	%rax, %rdi
+	call	*%rdx
+.LVL5:
+	.loc 1 31 2
+	movl	%eax, %edx
+	movl	$2, %esi
+	leaq	.LC1(%rip), %rax
+	movq	%rax, %rdi
+	call	testIntEqual@PLT
+	.loc 1 32 26
+	movq	-24(%rbp), %rax
+	movq	(%rax), %rax
+	.loc 1 32 2
+	movl	%eax, %edx
+	movl	$1, %esi
+	leaq	.LC1(%rip), %rax
+	movq	%rax, %rdi
+	call	testIntEqual@PLT
+	.loc 1 33 28
+	movq	-24(%rbp), %rax
+	movq	8(%rax), %rax
+	.loc 1 33 36
+	movq	(%rax), %rax
+	.loc 1 33 2
+	movl	%eax, %edx
+	movl	$2, %esi
+	leaq	.LC1(%rip), %rax
+	movq	%rax, %rdi
+	call	testIntEqual@PLT
+	.loc 1 35 23
+	movq	AInt_listPointer(%rip), %rax
+	movq	32(%rax), %r8
+	movl	$0, %ecx
+	movl	$3, %edx
+	movl	$2, %esi
+	movl	$1, %edi
+	movl	$0, %eax
+	call	*%r8
+.LVL6:
+	movq	%rax, -24(%rbp)
+	.loc 1 36 40
+	movq	AInt_listPointer(%rip), %rax
+	movq	128(%rax), %rdx
+	movq	-24(%rbp), %rax
+	movq	%rax, %rdi
+	call	*%rdx
+.LVL7:
+	.loc 1 36 2
+	movl	%eax, %edx
+	movl	$3, %esi
+	leaq	.LC2(%rip), %rax
+	movq	%rax, %rdi
+	call	testIntEqual@PLT
+	.loc 1 37 40
+	movq	AInt_listPointer(%rip), %rax
+	movq	104(%rax), %rdx
+	movq	-24(%rbp), %rax
+	movl	$0, %esi
+	movq	%rax, %rdi
+	call	*%rdx
+.LVL8:
+	.loc 1 37 2
+	movl	%eax, %edx
+	movl	$1, %esi
+	leaq	.LC3(%rip), %rax
+	movq	%rax, %rdi
+	call	testIntEqual@PLT
+	.loc 1 38 40
+	movq	AInt_listPointer(%rip), %rax
+	movq	104(%rax), %rdx
+	movq	-24(%rbp), %rax
+	movl	$1, %esi
+	movq	%rax, %rdi
+	call	*%rdx
+.LVL9:
+	.loc 1 38 2
+	movl	%eax, %edx
+	movl	$2, %esi
+	leaq	.LC4(%rip), %rax
+	movq	%rax, %rdi
+	call	testIntEqual@PLT
+	.loc 1 39 40
+	movq	AInt_listPointer(%rip), %rax
+	movq	104(%rax), %rdx
+	movq	-24(%rbp), %rax
+	movl	$2, %esi
+	movq	%rax, %rdi
+	call	*%rdx
+.LVL10:
+	.loc 1 39 2
+	movl	%eax, %edx
+	movl	$3, %esi
+	leaq	.LC5(%rip), %rax
+	movq	%rax, %rdi
+	call	testIntEqual@PLT
+	.loc 1 41 23
+	movq	AInt_listPointer(%rip), %rax
+	movq	16(%rax), %rdx
+	movl	$0, %edi
+	movl	$0, %eax
+	call	*%rdx
+.LVL11:
+	movq	%rax, -24(%rbp)
+	.loc 1 42 39
+	movq	AInt_listPointer(%rip), %rax
+	movq	128(%rax), %rdx
+	movq	-24(%rbp), %rax
+	movq	%rax, %rdi
+	call	*%rdx
+.LVL12:
+	.loc 1 42 2
+	movl	%eax, %edx
+	movl	$0, %esi
+	leaq	.LC1(%rip), %rax
+	movq	%rax, %rdi
+	call	testIntEqual@PLT
+	.loc 1 44 23
+	movq	AInt_listPointer(%rip), %rax
+	movq	16(%rax), %rdx
+	movl	$1, %esi
+	movl	$1, %edi
+	movl	$0, %eax
+	call	*%rdx
+.LVL13:
+	movq	%rax, -24(%rbp)
+	.loc 1 45 39
+	movq	AInt_listPointer(%rip), %rax
+	movq	128(%rax), %rdx
+	movq	-24(%rbp), %rax
+	movq	%rax, %rdi
+	call	*%rdx
+.LVL14:
+	.loc 1 45 2
+	movl	%eax, %edx
+	movl	$1, %esi
+	leaq	.LC1(%rip), %rax
+	movq	%rax, %rdi
+	call	testIntEqual@PLT
+	.loc 1 46 26
+	movq	-24(%rbp), %rax
+	movq	(%rax), %rax
+	.loc 1 46 2
+	movl	%eax, %edx
+	movl	$1, %esi
+	leaq	.LC1(%rip), %rax
+	movq	%rax, %rdi
+	call	testIntEqual@PLT
+	.loc 1 48 23
+	movq	AInt_listPointer(%rip), %rax
+	movq	16(%rax), %rcx
+	movl	$2, %edx
+	movl	$1, %esi
+	movl	$2, %edi
+	movl	$0, %eax
+	call	*%rcx
+.LVL15:
+	movq	%rax, -24(%rbp)
+	.loc 1 49 39
+	movq	AInt_listPointer(%rip), %rax
+	movq	128(%rax), %rdx
+	movq	-24(%rbp), %rax
+	movq	%rax, %rdi
+	call	*%rdx
+.LVL16:
+	.loc 1 49 2
+	movl	%eax, %edx
+	movl	$2, %esi
+	leaq	.LC1(%rip), %rax
+	movq	%rax, %rdi
+	call	testIntEqual@PLT
+	.loc 1 50 26
+	movq	-24(%rbp), %rax
+	movq	(%rax), %rax
+	.loc 1 50 2
+	movl	%eax, %edx
+	movl	$1, %esi
+	leaq	.LC1(%rip), %rax
+	movq	%rax, %rdi
+	call	testIntEqual@PLT
+	.loc 1 51 28
+	movq	-24(%rbp), %rax
+	movq	8(%rax), %rax
+	.loc 1 51 36
+	movq	(%rax), %rax
+	.loc 1 51 2
+	movl	%eax, %edx
+	movl	$2, %esi
+	leaq	.LC1(%rip), %rax
+	movq	%rax, %rdi
+	call	testIntEqual@PLT
+	.loc 1 53 23
+	movq	AInt_listPointer(%rip), %rax
+	movq	16(%rax), %r8
+	movl	$3, %ecx
+	movl	$2, %edx
+	movl	$1, %esi
+	movl	$3, %edi
+	movl	$0, %eax
+	call	*%r8
+.LVL17:
+	movq	%rax, -24(%rbp)
+	.loc 1 54 40
+	movq	AInt_listPointer(%rip), %rax
+	movq	128(%rax), %rdx
+	movq	-24(%rbp), %rax
+	movq	%rax, %rdi
+	call	*%rdx
+.LVL18:
+	.loc 1 54 2
+	movl	%eax, %edx
+	movl	$3, %esi
+	leaq	.LC2(%rip), %rax
+	movq	%rax, %rdi
+	call	testIntEqual@PLT
+	.loc 1 55 40
+	movq	AInt_listPointer(%rip), %rax
+	movq	104(%rax), %rdx
+	movq	-24(%rbp), %rax
+	movl	$0, %esi
+	movq	%rax, %rdi
+	call	*%rdx
+.LVL19:
+	.loc 1 55 2
+	movl	%eax, %edx
+	movl	$1, %esi
+	leaq	.LC3(%rip), %rax
+	movq	%rax, %rdi
+	call	testIntEqual@PLT
+	.loc 1 56 40
+	movq	AInt_listPointer(%rip), %rax
+	movq	104(%rax), %rdx
+	movq	-24(%rbp), %rax
+	movl	$1, %esi
+	movq	%rax, %rdi
+	call	*%rdx
+.LVL20:
+	.loc 1 56 2
+	movl	%eax, %edx
+	movl	$2, %esi
+	leaq	.LC4(%rip), %rax
+	movq	%rax, %rdi
+	call	testIntEqual@PLT
+	.loc 1 57 40
+	movq	AInt_listPointer(%rip), %rax
+	movq	104(%rax), %rdx
+	movq	-24(%rbp), %rax
+	movl	$2, %esi
+	movq	%rax, %rdi
+	call	*%rdx
+.LVL21:
+	.loc 1 57 2
+	movl	%eax, %edx
+	movl	$3, %esi
+	leaq	.LC5(%rip), %rax
+	movq	%rax, %rdi
+	call	testIntEqual@PLT
+	.loc 1 59 23
+	movq	AInt_listPointer(%rip), %rax
+	movq	16(%rax), %r8
+	movl	$3, %ecx
+	movl	$2, %edx
+	movl	$1, %esi
+	movl	$3, %edi
+	movl	$0, %eax
+	call	*%r8
+.LVL22:
+	movq	%rax, -24(%rbp)
+	.loc 1 60 35
+	movq	AInt_listPointer(%rip), %rax
+	movq	40(%rax), %rbx
+	.loc 1 60 61
+	movq	AInt_listPointer(%rip), %rax
+	movq	280(%rax), %rcx
+	.loc 1 60 2
+	movq	-24(%rbp), %rax
+	movl	$0, %edx
+	movl	$99, %esi
+	movq	%rax, %rdi
+	call	*%rcx
+.LVL23:
+	movq	%rax, %rcx
+	movq	-24(%rbp), %rax
+	movq	aintEqual@GOTPCREL(%rip), %rdx
+	movq	%rax, %rsi
+	movq	%rcx, %rdi
+	call	*%rbx
+.LVL24:
+	movl	%eax, %esi
+	leaq	.LC6(%rip), %rax
+	movq	%rax, %rdi
+	call	testTrue@PLT
+	.loc 1 61 35
+	movq	AInt_listPointer(%rip), %rax
+	movq	40(%rax), %rbx
+	.loc 1 61 81
+	movq	AInt_listPointer(%rip), %rax
+	movq	16(%rax), %rcx
+	.loc 1 61 2
+	movl	$3, %edx
+	movl	$1, %esi
+	movl	$2, %edi
+	movl	$0, %eax
+	call	*%rcx
+.LVL25:
+	movq	%rax, %r12
+	.loc 1 61 61
+	movq	AInt_listPointer(%rip), %rax
+	movq	280(%rax), %rcx
+	.loc 1 61 2
+	movq	-24(%rbp), %rax
+	movl	$0, %edx
+	movl	$2, %esi
+	movq	%rax, %rdi
+	call	*%rcx
+.LVL26:
+	movq	aintEqual@GOTPCREL(%rip), %rdx
+	movq	%r12, %rsi
+	movq	%rax, %rdi
+	call	*%rbx
+.LVL27:
+	movl	%eax, %esi
+	leaq	.LC6(%rip), %rax
+	movq	%rax, %rdi
+	call	testTrue@PLT
+	.loc 1 63 23
+	movq	AInt_listPointer(%rip), %rax
+	movq	16(%rax), %r8
+	movl	$3, %ecx
+	movl	$2, %edx
+	movl	$1, %esi
+	movl	$3, %edi
+	movl	$0, %eax
+	call	*%r8
+.LVL28:
+	movq	%rax, -24(%rbp)
+	.loc 1 64 35
+	movq	AInt_listPointer(%rip), %rax
+	movq	40(%rax), %rbx
+	.loc 1 65 23
+	movq	AInt_listPointer(%rip), %rax
+	movq	16(%rax), %rcx
+	.loc 1 64 2
+	movl	$3, %edx
+	movl	$1, %esi
+	movl	$2, %edi
+	movl	$0, %eax
+	call	*%rcx
+.LVL29:
+	movq	%rax, %r12
+	.loc 1 64 61
+	movq	AInt_listPointer(%rip), %rax
+	movq	280(%rax), %rcx
+	.loc 1 64 2
+	movq	-24(%rbp), %rax
+	leaq	eqMod5(%rip), %rdx
+	movl	$7, %esi
+	movq	%rax, %rdi
+	call	*%rcx
+.LVL30:
+	movq	aintEqual@GOTPCREL(%rip), %rdx
+	movq	%r12, %rsi
+	movq	%rax, %rdi
+	call	*%rbx
+.LVL31:
+	movl	%eax, %esi
+	leaq	.LC6(%rip), %rax
+	movq	%rax, %rdi
+	call	testTrue@PLT
+	.loc 1 66 1
+	nop
+	addq	$16, %rsp
+	popq	%rbx
+	popq	%r12
+	popq	%rbp
+	.cfi_def_cfa 7, 8
+	ret
+	.cfi_endproc
+.LFE1:
+	.size	testList, .-testList
+	.type	eqMod5, @function
+eqMod5:
+.LFB2:
+	.loc 1 70 1
+	.cfi_startproc
+	pushq	%rbp
+	.cfi_def_cfa_offset 16
+	.cfi_offset 6, -16
+	movq	%rsp, %rbp
+	.cfi_def_cfa_register 6
+	movq	%rdi, -8(%rbp)
+	movq	%rsi, -16(%rbp)
+	.loc 1 71 11
+	movq	-8(%rbp), %rsi
+	movabsq	$7378697629483820647, %rdx
+	movq	%rsi, %rax
+	imulq	%rdx
+	sarq	%rdx
+	movq	%rsi, %rax
+	sarq	$63, %rax
+	movq	%rdx, %rcx
+	subq	%rax, %rcx
+	movq	%rcx, %rax
+	salq	$2, %rax
+	addq	%rcx, %rax
+	movq	%rsi, %rcx
+	subq	%rax, %rcx
+	.loc 1 71 20
+	movq	-16(%rbp), %rsi
+	movabsq	$7378697629483820647, %rdx
+	movq	%rsi, %rax
+	imulq	%rdx
+	sarq	%rdx
+	movq	%rsi, %rax
+	sarq	$63, %rax
+	subq	%rax, %rdx
+	movq	%rdx, %rax
+	salq	$2, %rax
+	addq	%rdx, %rax
+	subq	%rax, %rsi
+	movq	%rsi, %rdx
+	.loc 1 71 15
+	cmpq	%rdx, %rcx
+	sete	%al
+	movzbl	%al, %eax
+	.loc 1 72 1
+	popq	%rbp
+	.cfi_def_cfa 7, 8
+	ret
+	.cfi_endproc
+.LFE2:
+	.size	eqMod5, .-eqMod5
+.Letext0:
+	.file 2 "/usr/include/x86_64-linux-gnu/bits/types.h"
+	.file 3 "<built-in>"
+	.file 4 "/usr/lib/gcc/x86_64-linux-gnu/12/include/stddef.h"
+	.file 5 "/usr/include/x86_64-linux-gnu/bits/types/struct_FILE.h"
+	.file 6 "/usr/include/x86_64-linux-gnu/bits/types/FILE.h"
+	.file 7 "./cport.h"
+	.file 8 "./ostream.h"
+	.file 9 "./axlobs.h"
+	.file 10 "test/testlib.h"
+	.file 11 "./int.h"
+	.section	.debug_info,"",@progbits
+.Ldebug_info0:
+	.long	0xb13
+	.value	0x5
+	.byte	0x1
+	.byte	0x8
+	.long	.Ldebug_abbrev0
+	.uleb128 0x17
+	.long	.LASF120
+	.byte	0xc
+	.long	.LASF0
+	.long	.LASF1
+	.quad	.Ltext0
+	.quad	.Letext0-.Ltext0
+	.long	.Ldebug_line0
+	.uleb128 0x18
+	.byte	0x4
+	.byte	0x5
+	.string	"int"
+	.uleb128 0x6
+	.byte	0x1
+	.byte	0x8
+	.long	.LASF2
+	.uleb128 0x6
+	.byte	0x2
+	.byte	0x7
+	.long	.LASF3
+	.uleb128 0x6
+	.byte	0x4
+	.byte	0x7
+	.long	.LASF4
+	.uleb128 0x6
+	.byte	0x8
+	.byte	0x7
+	.long	.LASF5
+	.uleb128 0x6
+	.byte	0x1
+	.byte	0x6
+	.long	.LASF6
+	.uleb128 0x6
+	.byte	0x2
+	.byte	0x5
+	.long	.LASF7
+	.uleb128 0x6
+	.byte	0x8
+	.byte	0x5
+	.long	.LASF8
+	.uleb128 0x7
+	.long	.LASF9
+	.byte	0x2
+	.byte	0x98
+	.byte	0x12
+	.long	0x5f
+	.uleb128 0x7
+	.long	.LASF10
+	.byte	0x2
+	.byte	0x99
+	.byte	0x12
+	.long	0x5f
+	.uleb128 0x19
+	.byte	0x8
+	.uleb128 0x2
+	.long	0x85
+	.uleb128 0x6
+	.byte	0x1
+	.byte	0x6
+	.long	.LASF11
+	.uleb128 0xf
+	.long	0x85
+	.uleb128 0x6
+	.byte	0x4
+	.byte	0x4
+	.long	.LASF12
+	.uleb128 0x6
+	.byte	0x8
+	.byte	0x4
+	.long	.LASF13
+	.uleb128 0x1a
+	.long	.LASF121
+	.byte	0x18
+	.byte	0x3
+	.byte	0
+	.long	0xd4
+	.uleb128 0xb
+	.long	.LASF14
+	.long	0x43
+	.byte	0
+	.uleb128 0xb
+	.long	.LASF15
+	.long	0x43
+	.byte	0x4
+	.uleb128 0xb
+	.long	.LASF16
+	.long	0x7e
+	.byte	0x8
+	.uleb128 0xb
+	.long	.LASF17
+	.long	0x7e
+	.byte	0x10
+	.byte	0
+	.uleb128 0x7
+	.long	.LASF18
+	.byte	0x4
+	.byte	0xd6
+	.byte	0x1b
+	.long	0x4a
+	.uleb128 0xc
+	.long	.LASF61
+	.byte	0xd8
+	.byte	0x5
+	.byte	0x31
+	.byte	0x8
+	.long	0x267
+	.uleb128 0x3
+	.long	.LASF19
+	.byte	0x5
+	.byte	0x33
+	.byte	0x7
+	.long	0x2e
+	.byte	0
+	.uleb128 0x3
+	.long	.LASF20
+	.byte	0x5
+	.byte	0x36
+	.byte	0x9
+	.long	0x80
+	.byte	0x8
+	.uleb128 0x3
+	.long	.LASF21
+	.byte	0x5
+	.byte	0x37
+	.byte	0x9
+	.long	0x80
+	.byte	0x10
+	.uleb128 0x3
+	.long	.LASF22
+	.byte	0x5
+	.byte	0x38
+	.byte	0x9
+	.long	0x80
+	.byte	0x18
+	.uleb128 0x3
+	.long	.LASF23
+	.byte	0x5
+	.byte	0x39
+	.byte	0x9
+	.long	0x80
+	.byte	0x20
+	.uleb128 0x3
+	.long	.LASF24
+	.byte	0x5
+	.byte	0x3a
+	.byte	0x9
+	.long	0x80
+	.byte	0x28
+	.uleb128 0x3
+	.long	.LASF25
+	.byte	0x5
+	.byte	0x3b
+	.byte	0x9
+	.long	0x80
+	.byte	0x30
+	.uleb128 0x3
+	.long	.LASF26
+	.byte	0x5
+	.byte	0x3c
+	.byte	0x9
+	.long	0x80
+	.byte	0x38
+	.uleb128 0x3
+	.long	.LASF27
+	.byte	0x5
+	.byte	0x3d
+	.byte	0x9
+	.long	0x80
+	.byte	0x40
+	.uleb128 0x3
+	.long	.LASF28
+	.byte	0x5
+	.byte	0x40
+	.byte	0x9
+	.long	0x80
+	.byte	0x48
+	.uleb128 0x3
+	.long	.LASF29
+	.byte	0x5
+	.byte	0x41
+	.byte	0x9
+	.long	0x80
+	.byte	0x50
+	.uleb128 0x3
+	.long	.LASF30
+	.byte	0x5
+	.byte	0x42
+	.byte	0x9
+	.long	0x80
+	.byte	0x58
+	.uleb128 0x3
+	.long	.LASF31
+	.byte	0x5
+	.byte	0x44
+	.byte	0x16
+	.long	0x280
+	.byte	0x60
+	.uleb128 0x3
+	.long	.LASF32
+	.byte	0x5
+	.byte	0x46
+	.byte	0x14
+	.long	0x285
+	.byte	0x68
+	.uleb128 0x3
+	.long	.LASF33
+	.byte	0x5
+	.byte	0x48
+	.byte	0x7
+	.long	0x2e
+	.byte	0x70
+	.uleb128 0x3
+	.long	.LASF34
+	.byte	0x5
+	.byte	0x49
+	.byte	0x7
+	.long	0x2e
+	.byte	0x74
+	.uleb128 0x3
+	.long	.LASF35
+	.byte	0x5
+	.byte	0x4a
+	.byte	0xb
+	.long	0x66
+	.byte	0x78
+	.uleb128 0x3
+	.long	.LASF36
+	.byte	0x5
+	.byte	0x4d
+	.byte	0x12
+	.long	0x3c
+	.byte	0x80
+	.uleb128 0x3
+	.long	.LASF37
+	.byte	0x5
+	.byte	0x4e
+	.byte	0xf
+	.long	0x51
+	.byte	0x82
+	.uleb128 0x3
+	.long	.LASF38
+	.byte	0x5
+	.byte	0x4f
+	.byte	0x8
+	.long	0x28a
+	.byte	0x83
+	.uleb128 0x3
+	.long	.LASF39
+	.byte	0x5
+	.byte	0x51
+	.byte	0xf
+	.long	0x29a
+	.byte	0x88
+	.uleb128 0x3
+	.long	.LASF40
+	.byte	0x5
+	.byte	0x59
+	.byte	0xd
+	.long	0x72
+	.byte	0x90
+	.uleb128 0x3
+	.long	.LASF41
+	.byte	0x5
+	.byte	0x5b
+	.byte	0x17
+	.long	0x2a4
+	.byte	0x98
+	.uleb128 0x3
+	.long	.LASF42
+	.byte	0x5
+	.byte	0x5c
+	.byte	0x19
+	.long	0x2ae
+	.byte	0xa0
+	.uleb128 0x3
+	.long	.LASF43
+	.byte	0x5
+	.byte	0x5d
+	.byte	0x14
+	.long	0x285
+	.byte	0xa8
+	.uleb128 0x3
+	.long	.LASF44
+	.byte	0x5
+	.byte	0x5e
+	.byte	0x9
+	.long	0x7e
+	.byte	0xb0
+	.uleb128 0x3
+	.long	.LASF45
+	.byte	0x5
+	.byte	0x5f
+	.byte	0xa
+	.long	0xd4
+	.byte	0xb8
+	.uleb128 0x3
+	.long	.LASF46
+	.byte	0x5
+	.byte	0x60
+	.byte	0x7
+	.long	0x2e
+	.byte	0xc0
+	.uleb128 0x3
+	.long	.LASF47
+	.byte	0x5
+	.byte	0x62
+	.byte	0x8
+	.long	0x2b3
+	.byte	0xc4
+	.byte	0
+	.uleb128 0x7
+	.long	.LASF48
+	.byte	0x6
+	.byte	0x7
+	.byte	0x19
+	.long	0xe0
+	.uleb128 0x1b
+	.long	.LASF122
+	.byte	0x5
+	.byte	0x2b
+	.byte	0xe
+	.uleb128 0xd
+	.long	.LASF49
+	.uleb128 0x2
+	.long	0x27b
+	.uleb128 0x2
+	.long	0xe0
+	.uleb128 0x10
+	.long	0x85
+	.long	0x29a
+	.uleb128 0x11
+	.long	0x4a
+	.byte	0
+	.byte	0
+	.uleb128 0x2
+	.long	0x273
+	.uleb128 0xd
+	.long	.LASF50
+	.uleb128 0x2
+	.long	0x29f
+	.uleb128 0xd
+	.long	.LASF51
+	.uleb128 0x2
+	.long	0x2a9
+	.uleb128 0x10
+	.long	0x85
+	.long	0x2c3
+	.uleb128 0x11
+	.long	0x4a
+	.byte	0x13
+	.byte	0
+	.uleb128 0x2
+	.long	0x267
+	.uleb128 0x6
+	.byte	0x8
+	.byte	0x5
+	.long	.LASF52
+	.uleb128 0x2
+	.long	0x8c
+	.uleb128 0x9
+	.long	.LASF53
+	.value	0x141
+	.byte	0x10
+	.long	0x5f
+	.uleb128 0x9
+	.long	.LASF54
+	.value	0x156
+	.byte	0xd
+	.long	0x2e
+	.uleb128 0x9
+	.long	.LASF55
+	.value	0x158
+	.byte	0x10
+	.long	0xd4
+	.uleb128 0x9
+	.long	.LASF56
+	.value	0x166
+	.byte	0x12
+	.long	0x7e
+	.uleb128 0x9
+	.long	.LASF57
+	.value	0x16a
+	.byte	0xf
+	.long	0x80
+	.uleb128 0x9
+	.long	.LASF58
+	.value	0x16b
+	.byte	0x15
+	.long	0x2cf
+	.uleb128 0x7
+	.long	.LASF59
+	.byte	0x8
+	.byte	0x7
+	.byte	0xf
+	.long	0x328
+	.uleb128 0x2
+	.long	0x32d
+	.uleb128 0x4
+	.long	0x2e
+	.long	0x341
+	.uleb128 0x1
+	.long	0x310
+	.uleb128 0x1
+	.long	0x2e
+	.byte	0
+	.uleb128 0x7
+	.long	.LASF60
+	.byte	0x8
+	.byte	0x9
+	.byte	0x19
+	.long	0x34d
+	.uleb128 0x2
+	.long	0x352
+	.uleb128 0xc
+	.long	.LASF62
+	.byte	0x10
+	.byte	0x8
+	.byte	0x15
+	.byte	0x8
+	.long	0x37a
+	.uleb128 0x1c
+	.string	"ops"
+	.byte	0x8
+	.byte	0x16
+	.byte	0xd
+	.long	0x416
+	.byte	0
+	.uleb128 0x3
+	.long	.LASF63
+	.byte	0x8
+	.byte	0x1a
+	.byte	0x4
+	.long	0x427
+	.byte	0x8
+	.byte	0
+	.uleb128 0x7
+	.long	.LASF64
+	.byte	0x8
+	.byte	0xb
+	.byte	0xe
+	.long	0x386
+	.uleb128 0xa
+	.long	0x396
+	.uleb128 0x1
+	.long	0x341
+	.uleb128 0x1
+	.long	0x85
+	.byte	0
+	.uleb128 0x7
+	.long	.LASF65
+	.byte	0x8
+	.byte	0xc
+	.byte	0xd
+	.long	0x3a2
+	.uleb128 0x4
+	.long	0x2e
+	.long	0x3bb
+	.uleb128 0x1
+	.long	0x341
+	.uleb128 0x1
+	.long	0x2cf
+	.uleb128 0x1
+	.long	0x2e
+	.byte	0
+	.uleb128 0x7
+	.long	.LASF66
+	.byte	0x8
+	.byte	0xd
+	.byte	0xe
+	.long	0x3c7
+	.uleb128 0xa
+	.long	0x3d2
+	.uleb128 0x1
+	.long	0x341
+	.byte	0
+	.uleb128 0xc
+	.long	.LASF67
+	.byte	0x18
+	.byte	0x8
+	.byte	0xf
+	.byte	0x10
+	.long	0x407
+	.uleb128 0x3
+	.long	.LASF68
+	.byte	0x8
+	.byte	0x10
+	.byte	0x12
+	.long	0x407
+	.byte	0
+	.uleb128 0x3
+	.long	.LASF69
+	.byte	0x8
+	.byte	0x11
+	.byte	0x14
+	.long	0x40c
+	.byte	0x8
+	.uleb128 0x3
+	.long	.LASF70
+	.byte	0x8
+	.byte	0x12
+	.byte	0xe
+	.long	0x411
+	.byte	0x10
+	.byte	0
+	.uleb128 0x2
+	.long	0x37a
+	.uleb128 0x2
+	.long	0x396
+	.uleb128 0x2
+	.long	0x3bb
+	.uleb128 0x7
+	.long	.LASF71
+	.byte	0x8
+	.byte	0x13
+	.byte	0x4
+	.long	0x422
+	.uleb128 0x2
+	.long	0x3d2
+	.uleb128 0x1d
+	.byte	0x8
+	.byte	0x8
+	.byte	0x17
+	.byte	0x2
+	.long	0x447
+	.uleb128 0x12
+	.string	"obj"
+	.byte	0x18
+	.byte	0xb
+	.long	0x2f8
+	.uleb128 0x12
+	.string	"fun"
+	.byte	0x19
+	.byte	0x11
+	.long	0x31c
+	.byte	0
+	.uleb128 0x2
+	.long	0x9f
+	.uleb128 0x2
+	.long	0x2e
+	.uleb128 0xc
+	.long	.LASF72
+	.byte	0x10
+	.byte	0x9
+	.byte	0x5b
+	.byte	0x10
+	.long	0x479
+	.uleb128 0x3
+	.long	.LASF73
+	.byte	0x9
+	.byte	0x5b
+	.byte	0x24
+	.long	0x2d4
+	.byte	0
+	.uleb128 0x3
+	.long	.LASF74
+	.byte	0x9
+	.byte	0x5b
+	.byte	0x40
+	.long	0x479
+	.byte	0x8
+	.byte	0
+	.uleb128 0x2
+	.long	0x451
+	.uleb128 0x7
+	.long	.LASF75
+	.byte	0x9
+	.byte	0x5b
+	.byte	0x49
+	.long	0x479
+	.uleb128 0x1e
+	.long	.LASF76
+	.value	0x140
+	.byte	0x9
+	.byte	0x5b
+	.byte	0x5a
+	.long	0x688
+	.uleb128 0x3
+	.long	.LASF77
+	.byte	0x9
+	.byte	0x5b
+	.byte	0x7a
+	.long	0x6a1
+	.byte	0
+	.uleb128 0x3
+	.long	.LASF78
+	.byte	0x9
+	.byte	0x5b
+	.byte	0x9d
+	.long	0x6b5
+	.byte	0x8
+	.uleb128 0x3
+	.long	.LASF79
+	.byte	0x9
+	.byte	0x5b
+	.byte	0xbb
+	.long	0x6ca
+	.byte	0x10
+	.uleb128 0x3
+	.long	.LASF80
+	.byte	0x9
+	.byte	0x5b
+	.byte	0xda
+	.long	0x6de
+	.byte	0x18
+	.uleb128 0x3
+	.long	.LASF81
+	.byte	0x9
+	.byte	0x5b
+	.byte	0xfc
+	.long	0x6f3
+	.byte	0x20
+	.uleb128 0x5
+	.long	.LASF82
+	.value	0x11a
+	.long	0x72a
+	.byte	0x28
+	.uleb128 0x5
+	.long	.LASF83
+	.value	0x156
+	.long	0x74d
+	.byte	0x30
+	.uleb128 0x5
+	.long	.LASF84
+	.value	0x197
+	.long	0x761
+	.byte	0x38
+	.uleb128 0x5
+	.long	.LASF85
+	.value	0x1b4
+	.long	0x771
+	.byte	0x40
+	.uleb128 0x5
+	.long	.LASF86
+	.value	0x1d1
+	.long	0x78a
+	.byte	0x48
+	.uleb128 0x5
+	.long	.LASF87
+	.value	0x1f6
+	.long	0x7af
+	.byte	0x50
+	.uleb128 0x5
+	.long	.LASF88
+	.value	0x22a
+	.long	0x7cd
+	.byte	0x58
+	.uleb128 0x5
+	.long	.LASF89
+	.value	0x26c
+	.long	0x7ff
+	.byte	0x60
+	.uleb128 0x13
+	.string	"Elt"
+	.byte	0x5b
+	.value	0x2ac
+	.long	0x818
+	.byte	0x68
+	.uleb128 0x5
+	.long	.LASF90
+	.value	0x2d0
+	.long	0x831
+	.byte	0x70
+	.uleb128 0x5
+	.long	.LASF91
+	.value	0x2f5
+	.long	0x761
+	.byte	0x78
+	.uleb128 0x5
+	.long	.LASF92
+	.value	0x314
+	.long	0x845
+	.byte	0x80
+	.uleb128 0x5
+	.long	.LASF93
+	.value	0x330
+	.long	0x85e
+	.byte	0x88
+	.uleb128 0x5
+	.long	.LASF94
+	.value	0x355
+	.long	0x85e
+	.byte	0x90
+	.uleb128 0x5
+	.long	.LASF95
+	.value	0x37b
+	.long	0x85e
+	.byte	0x98
+	.uleb128 0x5
+	.long	.LASF96
+	.value	0x3a4
+	.long	0x761
+	.byte	0xa0
+	.uleb128 0x5
+	.long	.LASF97
+	.value	0x3c1
+	.long	0x78a
+	.byte	0xa8
+	.uleb128 0x5
+	.long	.LASF98
+	.value	0x3ea
+	.long	0x88b
+	.byte	0xb0
+	.uleb128 0x5
+	.long	.LASF99
+	.value	0x41d
+	.long	0x8a9
+	.byte	0xb8
+	.uleb128 0x13
+	.string	"Map"
+	.byte	0x5b
+	.value	0x45c
+	.long	0x8c2
+	.byte	0xc0
+	.uleb128 0x5
+	.long	.LASF100
+	.value	0x489
+	.long	0x8c2
+	.byte	0xc8
+	.uleb128 0x5
+	.long	.LASF101
+	.value	0x4b7
+	.long	0x761
+	.byte	0xd0
+	.uleb128 0x5
+	.long	.LASF102
+	.value	0x4d7
+	.long	0x761
+	.byte	0xd8
+	.uleb128 0x5
+	.long	.LASF103
+	.value	0x4f8
+	.long	0x78a
+	.byte	0xe0
+	.uleb128 0x5
+	.long	.LASF104
+	.value	0x521
+	.long	0x78a
+	.byte	0xe8
+	.uleb128 0x5
+	.long	.LASF105
+	.value	0x547
+	.long	0x8db
+	.byte	0xf0
+	.uleb128 0x5
+	.long	.LASF106
+	.value	0x566
+	.long	0x8f9
+	.byte	0xf8
+	.uleb128 0x8
+	.long	.LASF107
+	.value	0x59e
+	.long	0x912
+	.value	0x100
+	.uleb128 0x8
+	.long	.LASF108
+	.value	0x5c8
+	.long	0x92b
+	.value	0x108
+	.uleb128 0x8
+	.long	.LASF109
+	.value	0x5e6
+	.long	0x949
+	.value	0x110
+	.uleb128 0x8
+	.long	.LASF110
+	.value	0x624
+	.long	0x967
+	.value	0x118
+	.uleb128 0x8
+	.long	.LASF111
+	.value	0x65d
+	.long	0x981
+	.value	0x120
+	.uleb128 0x8
+	.long	.LASF112
+	.value	0x683
+	.long	0x9b8
+	.value	0x128
+	.uleb128 0x8
+	.long	.LASF113
+	.value	0x6be
+	.long	0x9e5
+	.value	0x130
+	.uleb128 0x8
+	.long	.LASF114
+	.value	0x712
+	.long	0xa03
+	.value	0x138
+	.byte	0
+	.uleb128 0xf
+	.long	0x48a
+	.uleb128 0x4
+	.long	0x47e
+	.long	0x6a1
+	.uleb128 0x1
+	.long	0x2d4
+	.uleb128 0x1
+	.long	0x47e
+	.byte	0
+	.uleb128 0x2
+	.long	0x68d
+	.uleb128 0x4
+	.long	0x47e
+	.long	0x6b5
+	.uleb128 0x1
+	.long	0x2d4
+	.byte	0
+	.uleb128 0x2
+	.long	0x6a6
+	.uleb128 0x4
+	.long	0x47e
+	.long	0x6ca
+	.uleb128 0x1
+	.long	0x2e
+	.uleb128 0x14
+	.byte	0
+	.uleb128 0x2
+	.long	0x6ba
+	.uleb128 0x4
+	.long	0x47e
+	.long	0x6de
+	.uleb128 0x1
+	.long	0x447
+	.byte	0
+	.uleb128 0x2
+	.long	0x6cf
+	.uleb128 0x4
+	.long	0x47e
+	.long	0x6f3
+	.uleb128 0x1
+	.long	0x2d4
+	.uleb128 0x14
+	.byte	0
+	.uleb128 0x2
+	.long	0x6e3
+	.uleb128 0x4
+	.long	0x2e0
+	.long	0x711
+	.uleb128 0x1
+	.long	0x47e
+	.uleb128 0x1
+	.long	0x47e
+	.uleb128 0x1
+	.long	0x711
+	.byte	0
+	.uleb128 0x2
+	.long	0x716
+	.uleb128 0x4
+	.long	0x2e0
+	.long	0x72a
+	.uleb128 0x1
+	.long	0x2d4
+	.uleb128 0x1
+	.long	0x2d4
+	.byte	0
+	.uleb128 0x2
+	.long	0x6f8
+	.uleb128 0x4
+	.long	0x2d4
+	.long	0x74d
+	.uleb128 0x1
+	.long	0x47e
+	.uleb128 0x1
+	.long	0x2d4
+	.uleb128 0x1
+	.long	0x711
+	.uleb128 0x1
+	.long	0x44c
+	.byte	0
+	.uleb128 0x2
+	.long	0x72f
+	.uleb128 0x4
+	.long	0x47e
+	.long	0x761
+	.uleb128 0x1
+	.long	0x47e
+	.byte	0
+	.uleb128 0x2
+	.long	0x752
+	.uleb128 0xa
+	.long	0x771
+	.uleb128 0x1
+	.long	0x47e
+	.byte	0
+	.uleb128 0x2
+	.long	0x766
+	.uleb128 0x4
+	.long	0x47e
+	.long	0x78a
+	.uleb128 0x1
+	.long	0x47e
+	.uleb128 0x1
+	.long	0x47e
+	.byte	0
+	.uleb128 0x2
+	.long	0x776
+	.uleb128 0xa
+	.long	0x79f
+	.uleb128 0x1
+	.long	0x47e
+	.uleb128 0x1
+	.long	0x79f
+	.byte	0
+	.uleb128 0x2
+	.long	0x7a4
+	.uleb128 0xa
+	.long	0x7af
+	.uleb128 0x1
+	.long	0x2d4
+	.byte	0
+	.uleb128 0x2
+	.long	0x78f
+	.uleb128 0x4
+	.long	0x47e
+	.long	0x7cd
+	.uleb128 0x1
+	.long	0x47e
+	.uleb128 0x1
+	.long	0x47e
+	.uleb128 0x1
+	.long	0x79f
+	.byte	0
+	.uleb128 0x2
+	.long	0x7b4
+	.uleb128 0x4
+	.long	0x47e
+	.long	0x7eb
+	.uleb128 0x1
+	.long	0x47e
+	.uleb128 0x1
+	.long	0x79f
+	.uleb128 0x1
+	.long	0x7eb
+	.byte	0
+	.uleb128 0x2
+	.long	0x7f0
+	.uleb128 0x4
+	.long	0x2e0
+	.long	0x7ff
+	.uleb128 0x1
+	.long	0x2d4
+	.byte	0
+	.uleb128 0x2
+	.long	0x7d2
+	.uleb128 0x4
+	.long	0x2d4
+	.long	0x818
+	.uleb128 0x1
+	.long	0x47e
+	.uleb128 0x1
+	.long	0x2ec
+	.byte	0
+	.uleb128 0x2
+	.long	0x804
+	.uleb128 0x4
+	.long	0x47e
+	.long	0x831
+	.uleb128 0x1
+	.long	0x47e
+	.uleb128 0x1
+	.long	0x2ec
+	.byte	0
+	.uleb128 0x2
+	.long	0x81d
+	.uleb128 0x4
+	.long	0x2ec
+	.long	0x845
+	.uleb128 0x1
+	.long	0x47e
+	.byte	0
+	.uleb128 0x2
+	.long	0x836
+	.uleb128 0x4
+	.long	0x2e0
+	.long	0x85e
+	.uleb128 0x1
+	.long	0x47e
+	.uleb128 0x1
+	.long	0x2ec
+	.byte	0
+	.uleb128 0x2
+	.long	0x84a
+	.uleb128 0x4
+	.long	0x47e
+	.long	0x877
+	.uleb128 0x1
+	.long	0x47e
+	.uleb128 0x1
+	.long	0x877
+	.byte	0
+	.uleb128 0x2
+	.long	0x87c
+	.uleb128 0x4
+	.long	0x2d4
+	.long	0x88b
+	.uleb128 0x1
+	.long	0x2d4
+	.byte	0
+	.uleb128 0x2
+	.long	0x863
+	.uleb128 0x4
+	.long	0x47e
+	.long	0x8a9
+	.uleb128 0x1
+	.long	0x47e
+	.uleb128 0x1
+	.long	0x47e
+	.uleb128 0x1
+	.long	0x877
+	.byte	0
+	.uleb128 0x2
+	.long	0x890
+	.uleb128 0x4
+	.long	0x47e
+	.long	0x8c2
+	.uleb128 0x1
+	.long	0x877
+	.uleb128 0x1
+	.long	0x47e
+	.byte	0
+	.uleb128 0x2
+	.long	0x8ae
+	.uleb128 0x4
+	.long	0x2e0
+	.long	0x8db
+	.uleb128 0x1
+	.long	0x47e
+	.uleb128 0x1
+	.long	0x2d4
+	.byte	0
+	.uleb128 0x2
+	.long	0x8c7
+	.uleb128 0x4
+	.long	0x2e0
+	.long	0x8f9
+	.uleb128 0x1
+	.long	0x47e
+	.uleb128 0x1
+	.long	0x2d4
+	.uleb128 0x1
+	.long	0x711
+	.byte	0
+	.uleb128 0x2
+	.long	0x8e0
+	.uleb128 0x4
+	.long	0x2e0
+	.long	0x912
+	.uleb128 0x1
+	.long	0x47e
+	.uleb128 0x1
+	.long	0x47e
+	.byte	0
+	.uleb128 0x2
+	.long	0x8fe
+	.uleb128 0x4
+	.long	0x2e
+	.long	0x92b
+	.uleb128 0x1
+	.long	0x47e
+	.uleb128 0x1
+	.long	0x2d4
+	.byte	0
+	.uleb128 0x2
+	.long	0x917
+	.uleb128 0x4
+	.long	0x2e
+	.long	0x949
+	.uleb128 0x1
+	.long	0x47e
+	.uleb128 0x1
+	.long	0x2d4
+	.uleb128 0x1
+	.long	0x711
+	.byte	0
+	.uleb128 0x2
+	.long	0x930
+	.uleb128 0x4
+	.long	0x47e
+	.long	0x967
+	.uleb128 0x1
+	.long	0x47e
+	.uleb128 0x1
+	.long	0x2d4
+	.uleb128 0x1
+	.long	0x711
+	.byte	0
+	.uleb128 0x2
+	.long	0x94e
+	.uleb128 0xa
+	.long	0x97c
+	.uleb128 0x1
+	.long	0x97c
+	.uleb128 0x1
+	.long	0x47e
+	.byte	0
+	.uleb128 0x2
+	.long	0x2d4
+	.uleb128 0x2
+	.long	0x96c
+	.uleb128 0x4
+	.long	0x2e
+	.long	0x99f
+	.uleb128 0x1
+	.long	0x2c3
+	.uleb128 0x1
+	.long	0x47e
+	.uleb128 0x1
+	.long	0x99f
+	.byte	0
+	.uleb128 0x2
+	.long	0x9a4
+	.uleb128 0x4
+	.long	0x2e
+	.long	0x9b8
+	.uleb128 0x1
+	.long	0x2c3
+	.uleb128 0x1
+	.long	0x2d4
+	.byte	0
+	.uleb128 0x2
+	.long	0x986
+	.uleb128 0x4
+	.long	0x2e
+	.long	0x9e5
+	.uleb128 0x1
+	.long	0x2c3
+	.uleb128 0x1
+	.long	0x47e
+	.uleb128 0x1
+	.long	0x99f
+	.uleb128 0x1
+	.long	0x80
+	.uleb128 0x1
+	.long	0x80
+	.uleb128 0x1
+	.long	0x80
+	.byte	0
+	.uleb128 0x2
+	.long	0x9bd
+	.uleb128 0x4
+	.long	0x2e
+	.long	0xa03
+	.uleb128 0x1
+	.long	0x341
+	.uleb128 0x1
+	.long	0x310
+	.uleb128 0x1
+	.long	0x47e
+	.byte	0
+	.uleb128 0x2
+	.long	0x9ea
+	.uleb128 0x1f
+	.long	.LASF123
+	.byte	0x9
+	.byte	0x5b
+	.value	0x763
+	.long	0xa15
+	.uleb128 0x2
+	.long	0x688
+	.uleb128 0xe
+	.long	.LASF115
+	.byte	0xc
+	.long	0xa2f
+	.uleb128 0x1
+	.long	0x304
+	.uleb128 0x1
+	.long	0x2e0
+	.byte	0
+	.uleb128 0x20
+	.long	.LASF124
+	.byte	0xb
+	.byte	0xa
+	.byte	0xd
+	.long	0x2e0
+	.long	0xa4a
+	.uleb128 0x1
+	.long	0x2d4
+	.uleb128 0x1
+	.long	0x2d4
+	.byte	0
+	.uleb128 0xe
+	.long	.LASF116
+	.byte	0x8
+	.long	0xa64
+	.uleb128 0x1
+	.long	0x304
+	.uleb128 0x1
+	.long	0x2e
+	.uleb128 0x1
+	.long	0x2e
+	.byte	0
+	.uleb128 0x15
+	.long	.LASF118
+	.byte	0x18
+	.uleb128 0xe
+	.long	.LASF117
+	.byte	0x15
+	.long	0xa7f
+	.uleb128 0x1
+	.long	0x80
+	.uleb128 0x1
+	.long	0xa7f
+	.byte	0
+	.uleb128 0x2
+	.long	0xa84
+	.uleb128 0x21
+	.uleb128 0x15
+	.long	.LASF119
+	.byte	0x17
+	.uleb128 0x22
+	.long	.LASF125
+	.byte	0x1
+	.byte	0x45
+	.byte	0x1
+	.long	0x2e0
+	.quad	.LFB2
+	.quad	.LFE2-.LFB2
+	.uleb128 0x1
+	.byte	0x9c
+	.long	0xac6
+	.uleb128 0x16
+	.string	"a"
+	.byte	0x45
+	.byte	0xd
+	.long	0x2d4
+	.uleb128 0x2
+	.byte	0x91
+	.sleb128 -24
+	.uleb128 0x16
+	.string	"b"
+	.byte	0x45
+	.byte	0x15
+	.long	0x2d4
+	.uleb128 0x2
+	.byte	0x91
+	.sleb128 -32
+	.byte	0
+	.uleb128 0x23
+	.long	.LASF126
+	.byte	0x1
+	.byte	0x13
+	.byte	0x1
+	.quad	.LFB1
+	.quad	.LFE1-.LFB1
+	.uleb128 0x1
+	.byte	0x9c
+	.long	0xafc
+	.uleb128 0x24
+	.string	"l"
+	.byte	0x1
+	.byte	0x15
+	.byte	0xb
+	.long	0x47e
+	.uleb128 0x2
+	.byte	0x91
+	.sleb128 -40
+	.uleb128 0x25
+	.string	"m"
+	.byte	0x1
+	.byte	0x15
+	.byte	0xe
+	.long	0x47e
+	.byte	0
+	.uleb128 0x26
+	.long	.LASF127
+	.byte	0x1
+	.byte	0xb
+	.byte	0x1
+	.quad	.LFB0
+	.quad	.LFE0-.LFB0
+	.uleb128 0x1
+	.byte	0x9c
+	.byte	0
+	.section	.debug_abbrev,"",@progbits
+.Ldebug_abbrev0:
+	.uleb128 0x1
+	.uleb128 0x5
+	.byte	0
+	.uleb128 0x49
+	.uleb128 0x13
+	.byte	0
+	.byte	0
+	.uleb128 0x2
+	.uleb128 0xf
+	.byte	0
+	.uleb128 0xb
+	.uleb128 0x21
+	.sleb128 8
+	.uleb128 0x49
+	.uleb128 0x13
+	.byte	0
+	.byte	0
+	.uleb128 0x3
+	.uleb128 0xd
+	.byte	0
+	.uleb128 0x3
+	.uleb128 0xe
+	.uleb128 0x3a
+	.uleb128 0xb
+	.uleb128 0x3b
+	.uleb128 0xb
+	.uleb128 0x39
+	.uleb128 0xb
+	.uleb128 0x49
+	.uleb128 0x13
+	.uleb128 0x38
+	.uleb128 0xb
+	.byte	0
+	.byte	0
+	.uleb128 0x4
+	.uleb128 0x15
+	.byte	0x1
+	.uleb128 0x27
+	.uleb128 0x19
+	.uleb128 0x49
+	.uleb128 0x13
+	.uleb128 0x1
+	.uleb128 0x13
+	.byte	0
+	.byte	0
+	.uleb128 0x5
+	.uleb128 0xd
+	.byte	0
+	.uleb128 0x3
+	.uleb128 0xe
+	.uleb128 0x3a
+	.uleb128 0x21
+	.sleb128 9
+	.uleb128 0x3b
+	.uleb128 0x21
+	.sleb128 91
+	.uleb128 0x39
+	.uleb128 0x5
+	.uleb128 0x49
+	.uleb128 0x13
+	.uleb128 0x38
+	.uleb128 0xb
+	.byte	0
+	.byte	0
+	.uleb128 0x6
+	.uleb128 0x24
+	.byte	0
+	.uleb128 0xb
+	.uleb128 0xb
+	.uleb128 0x3e
+	.uleb128 0xb
+	.uleb128 0x3
+	.uleb128 0xe
+	.byte	0
+	.byte	0
+	.uleb128 0x7
+	.uleb128 0x16
+	.byte	0
+	.uleb128 0x3
+	.uleb128 0xe
+	.uleb128 0x3a
+	.uleb128 0xb
+	.uleb128 0x3b
+	.uleb128 0xb
+	.uleb128 0x39
+	.uleb128 0xb
+	.uleb128 0x49
+	.uleb128 0x13
+	.byte	0
+	.byte	0
+	.uleb128 0x8
+	.uleb128 0xd
+	.byte	0
+	.uleb128 0x3
+	.uleb128 0xe
+	.uleb128 0x3a
+	.uleb128 0x21
+	.sleb128 9
+	.uleb128 0x3b
+	.uleb128 0x21
+	.sleb128 91
+	.uleb128 0x39
+	.uleb128 0x5
+	.uleb128 0x49
+	.uleb128 0x13
+	.uleb128 0x38
+	.uleb128 0x5
+	.byte	0
+	.byte	0
+	.uleb128 0x9
+	.uleb128 0x16
+	.byte	0
+	.uleb128 0x3
+	.uleb128 0xe
+	.uleb128 0x3a
+	.uleb128 0x21
+	.sleb128 7
+	.uleb128 0x3b
+	.uleb128 0x5
+	.uleb128 0x39
+	.uleb128 0xb
+	.uleb128 0x49
+	.uleb128 0x13
+	.byte	0
+	.byte	0
+	.uleb128 0xa
+	.uleb128 0x15
+	.byte	0x1
+	.uleb128 0x27
+	.uleb128 0x19
+	.uleb128 0x1
+	.uleb128 0x13
+	.byte	0
+	.byte	0
+	.uleb128 0xb
+	.uleb128 0xd
+	.byte	0
+	.uleb128 0x3
+	.uleb128 0xe
+	.uleb128 0x3a
+	.uleb128 0x21
+	.sleb128 3
+	.uleb128 0x3b
+	.uleb128 0x21
+	.sleb128 0
+	.uleb128 0x49
+	.uleb128 0x13
+	.uleb128 0x38
+	.uleb128 0xb
+	.byte	0
+	.byte	0
+	.uleb128 0xc
+	.uleb128 0x13
+	.byte	0x1
+	.uleb128 0x3
+	.uleb128 0xe
+	.uleb128 0xb
+	.uleb128 0xb
+	.uleb128 0x3a
+	.uleb128 0xb
+	.uleb128 0x3b
+	.uleb128 0xb
+	.uleb128 0x39
+	.uleb128 0xb
+	.uleb128 0x1
+	.uleb128 0x13
+	.byte	0
+	.byte	0
+	.uleb128 0xd
+	.uleb128 0x13
+	.byte	0
+	.uleb128 0x3
+	.uleb128 0xe
+	.uleb128 0x3c
+	.uleb128 0x19
+	.byte	0
+	.byte	0
+	.uleb128 0xe
+	.uleb128 0x2e
+	.byte	0x1
+	.uleb128 0x3f
+	.uleb128 0x19
+	.uleb128 0x3
+	.uleb128 0xe
+	.uleb128 0x3a
+	.uleb128 0x21
+	.sleb128 10
+	.uleb128 0x3b
+	.uleb128 0xb
+	.uleb128 0x39
+	.uleb128 0x21
+	.sleb128 6
+	.uleb128 0x27
+	.uleb128 0x19
+	.uleb128 0x3c
+	.uleb128 0x19
+	.uleb128 0x1
+	.uleb128 0x13
+	.byte	0
+	.byte	0
+	.uleb128 0xf
+	.uleb128 0x26
+	.byte	0
+	.uleb128 0x49
+	.uleb128 0x13
+	.byte	0
+	.byte	0
+	.uleb128 0x10
+	.uleb128 0x1
+	.byte	0x1
+	.uleb128 0x49
+	.uleb128 0x13
+	.uleb128 0x1
+	.uleb128 0x13
+	.byte	0
+	.byte	0
+	.uleb128 0x11
+	.uleb128 0x21
+	.byte	0
+	.uleb128 0x49
+	.uleb128 0x13
+	.uleb128 0x2f
+	.uleb128 0xb
+	.byte	0
+	.byte	0
+	.uleb128 0x12
+	.uleb128 0xd
+	.byte	0
+	.uleb128 0x3
+	.uleb128 0x8
+	.uleb128 0x3a
+	.uleb128 0x21
+	.sleb128 8
+	.uleb128 0x3b
+	.uleb128 0xb
+	.uleb128 0x39
+	.uleb128 0xb
+	.uleb128 0x49
+	.uleb128 0x13
+	.byte	0
+	.byte	0
+	.uleb128 0x13
+	.uleb128 0xd
+	.byte	0
+	.uleb128 0x3
+	.uleb128 0x8
+	.uleb128 0x3a
+	.uleb128 0x21
+	.sleb128 9
+	.uleb128 0x3b
+	.uleb128 0xb
+	.uleb128 0x39
+	.uleb128 0x5
+	.uleb128 0x49
+	.uleb128 0x13
+	.uleb128 0x38
+	.uleb128 0xb
+	.byte	0
+	.byte	0
+	.uleb128 0x14
+	.uleb128 0x18
+	.byte	0
+	.byte	0
+	.byte	0
+	.uleb128 0x15
+	.uleb128 0x2e
+	.byte	0
+	.uleb128 0x3f
+	.uleb128 0x19
+	.uleb128 0x3
+	.uleb128 0xe
+	.uleb128 0x3a
+	.uleb128 0x21
+	.sleb128 10
+	.uleb128 0x3b
+	.uleb128 0xb
+	.uleb128 0x39
+	.uleb128 0x21
+	.sleb128 6
+	.uleb128 0x27
+	.uleb128 0x19
+	.uleb128 0x3c
+	.uleb128 0x19
+	.byte	0
+	.byte	0
+	.uleb128 0x16
+	.uleb128 0x5
+	.byte	0
+	.uleb128 0x3
+	.uleb128 0x8
+	.uleb128 0x3a
+	.uleb128 0x21
+	.sleb128 1
+	.uleb128 0x3b
+	.uleb128 0xb
+	.uleb128 0x39
+	.uleb128 0xb
+	.uleb128 0x49
+	.uleb128 0x13
+	.uleb128 0x2
+	.uleb128 0x18
+	.byte	0
+	.byte	0
+	.uleb128 0x17
+	.uleb128 0x11
+	.byte	0x1
+	.uleb128 0x25
+	.uleb128 0xe
+	.uleb128 0x13
+	.uleb128 0xb
+	.uleb128 0x3
+	.uleb128 0x1f
+	.uleb128 0x1b
+	.uleb128 0x1f
+	.uleb128 0x11
+	.uleb128 0x1
+	.uleb128 0x12
+	.uleb128 0x7
+	.uleb128 0x10
+	.uleb128 0x17
+	.byte	0
+	.byte	0
+	.uleb128 0x18
+	.uleb128 0x24
+	.byte	0
+	.uleb128 0xb
+	.uleb128 0xb
+	.uleb128 0x3e
+	.uleb128 0xb
+	.uleb128 0x3
+	.uleb128 0x8
+	.byte	0
+	.byte	0
+	.uleb128 0x19
+	.uleb128 0xf
+	.byte	0
+	.uleb128 0xb
+	.uleb128 0xb
+	.byte	0
+	.byte	0
+	.uleb128 0x1a
+	.uleb128 0x13
+	.byte	0x1
+	.uleb128 0x3
+	.uleb128 0xe
+	.uleb128 0xb
+	.uleb128 0xb
+	.uleb128 0x3a
+	.uleb128 0xb
+	.uleb128 0x3b
+	.uleb128 0xb
+	.uleb128 0x1
+	.uleb128 0x13
+	.byte	0
+	.byte	0
+	.uleb128 0x1b
+	.uleb128 0x16
+	.byte	0
+	.uleb128 0x3
+	.uleb128 0xe
+	.uleb128 0x3a
+	.uleb128 0xb
+	.uleb128 0x3b
+	.uleb128 0xb
+	.uleb128 0x39
+	.uleb128 0xb
+	.byte	0
+	.byte	0
+	.uleb128 0x1c
+	.uleb128 0xd
+	.byte	0
+	.uleb128 0x3
+	.uleb128 0x8
+	.uleb128 0x3a
+	.uleb128 0xb
+	.uleb128 0x3b
+	.uleb128 0xb
+	.uleb128 0x39
+	.uleb128 0xb
+	.uleb128 0x49
+	.uleb128 0x13
+	.uleb128 0x38
+	.uleb128 0xb
+	.byte	0
+	.byte	0
+	.uleb128 0x1d
+	.uleb128 0x17
+	.byte	0x1
+	.uleb128 0xb
+	.uleb128 0xb
+	.uleb128 0x3a
+	.uleb128 0xb
+	.uleb128 0x3b
+	.uleb128 0xb
+	.uleb128 0x39
+	.uleb128 0xb
+	.uleb128 0x1
+	.uleb128 0x13
+	.byte	0
+	.byte	0
+	.uleb128 0x1e
+	.uleb128 0x13
+	.byte	0x1
+	.uleb128 0x3
+	.uleb128 0xe
+	.uleb128 0xb
+	.uleb128 0x5
+	.uleb128 0x3a
+	.uleb128 0xb
+	.uleb128 0x3b
+	.uleb128 0xb
+	.uleb128 0x39
+	.uleb128 0xb
+	.uleb128 0x1
+	.uleb128 0x13
+	.byte	0
+	.byte	0
+	.uleb128 0x1f
+	.uleb128 0x34
+	.byte	0
+	.uleb128 0x3
+	.uleb128 0xe
+	.uleb128 0x3a
+	.uleb128 0xb
+	.uleb128 0x3b
+	.uleb128 0xb
+	.uleb128 0x39
+	.uleb128 0x5
+	.uleb128 0x49
+	.uleb128 0x13
+	.uleb128 0x3f
+	.uleb128 0x19
+	.uleb128 0x3c
+	.uleb128 0x19
+	.byte	0
+	.byte	0
+	.uleb128 0x20
+	.uleb128 0x2e
+	.byte	0x1
+	.uleb128 0x3f
+	.uleb128 0x19
+	.uleb128 0x3
+	.uleb128 0xe
+	.uleb128 0x3a
+	.uleb128 0xb
+	.uleb128 0x3b
+	.uleb128 0xb
+	.uleb128 0x39
+	.uleb128 0xb
+	.uleb128 0x27
+	.uleb128 0x19
+	.uleb128 0x49
+	.uleb128 0x13
+	.uleb128 0x3c
+	.uleb128 0x19
+	.uleb128 0x1
+	.uleb128 0x13
+	.byte	0
+	.byte	0
+	.uleb128 0x21
+	.uleb128 0x15
+	.byte	0
+	.uleb128 0x27
+	.uleb128 0x19
+	.byte	0
+	.byte	0
+	.uleb128 0x22
+	.uleb128 0x2e
+	.byte	0x1
+	.uleb128 0x3
+	.uleb128 0xe
+	.uleb128 0x3a
+	.uleb128 0xb
+	.uleb128 0x3b
+	.uleb128 0xb
+	.uleb128 0x39
+	.uleb128 0xb
+	.uleb128 0x27
+	.uleb128 0x19
+	.uleb128 0x49
+	.uleb128 0x13
+	.uleb128 0x11
+	.uleb128 0x1
+	.uleb128 0x12
+	.uleb128 0x7
+	.uleb128 0x40
+	.uleb128 0x18
+	.uleb128 0x7a
+	.uleb128 0x19
+	.uleb128 0x1
+	.uleb128 0x13
+	.byte	0
+	.byte	0
+	.uleb128 0x23
+	.uleb128 0x2e
+	.byte	0x1
+	.uleb128 0x3
+	.uleb128 0xe
+	.uleb128 0x3a
+	.uleb128 0xb
+	.uleb128 0x3b
+	.uleb128 0xb
+	.uleb128 0x39
+	.uleb128 0xb
+	.uleb128 0x11
+	.uleb128 0x1
+	.uleb128 0x12
+	.uleb128 0x7
+	.uleb128 0x40
+	.uleb128 0x18
+	.uleb128 0x7c
+	.uleb128 0x19
+	.uleb128 0x1
+	.uleb128 0x13
+	.byte	0
+	.byte	0
+	.uleb128 0x24
+	.uleb128 0x34
+	.byte	0
+	.uleb128 0x3
+	.uleb128 0x8
+	.uleb128 0x3a
+	.uleb128 0xb
+	.uleb128 0x3b
+	.uleb128 0xb
+	.uleb128 0x39
+	.uleb128 0xb
+	.uleb128 0x49
+	.uleb128 0x13
+	.uleb128 0x2
+	.uleb128 0x18
+	.byte	0
+	.byte	0
+	.uleb128 0x25
+	.uleb128 0x34
+	.byte	0
+	.uleb128 0x3
+	.uleb128 0x8
+	.uleb128 0x3a
+	.uleb128 0xb
+	.uleb128 0x3b
+	.uleb128 0xb
+	.uleb128 0x39
+	.uleb128 0xb
+	.uleb128 0x49
+	.uleb128 0x13
+	.byte	0
+	.byte	0
+	.uleb128 0x26
+	.uleb128 0x2e
+	.byte	0
+	.uleb128 0x3f
+	.uleb128 0x19
+	.uleb128 0x3
+	.uleb128 0xe
+	.uleb128 0x3a
+	.uleb128 0xb
+	.uleb128 0x3b
+	.uleb128 0xb
+	.uleb128 0x39
+	.uleb128 0xb
+	.uleb128 0x11
+	.uleb128 0x1
+	.uleb128 0x12
+	.uleb128 0x7
+	.uleb128 0x40
+	.uleb128 0x18
+	.uleb128 0x7c
+	.uleb128 0x19
+	.byte	0
+	.byte	0
+	.byte	0
+	.section	.debug_aranges,"",@progbits
+	.long	0x2c
+	.value	0x2
+	.long	.Ldebug_info0
+	.byte	0x8
+	.byte	0
+	.value	0
+	.value	0
+	.quad	.Ltext0
+	.quad	.Letext0-.Ltext0
+	.quad	0
+	.quad	0
+	.section	.debug_line,"",@progbits
+.Ldebug_line0:
+	.section	.debug_str,"MS",@progbits,1
+.LASF9:
+	.string	"__off_t"
+.LASF96:
+	.string	"Copy"
+.LASF7:
+	.string	"short int"
+.LASF20:
+	.string	"_IO_read_ptr"
+.LASF32:
+	.string	"_chain"
+.LASF38:
+	.string	"_shortbuf"
+.LASF18:
+	.string	"size_t"
+.LASF78:
+	.string	"Singleton"
+.LASF56:
+	.string	"Pointer"
+.LASF60:
+	.string	"OStream"
+.LASF125:
+	.string	"eqMod5"
+.LASF14:
+	.string	"gp_offset"
+.LASF119:
+	.string	"init"
+.LASF26:
+	.string	"_IO_buf_base"
+.LASF124:
+	.string	"aintEqual"
+.LASF72:
+	.string	"AIntListCons"
+.LASF115:
+	.string	"testTrue"
+.LASF57:
+	.string	"String"
+.LASF52:
+	.string	"long long int"
+.LASF6:
+	.string	"signed char"
+.LASF81:
+	.string	"ListNull"
+.LASF33:
+	.string	"_fileno"
+.LASF21:
+	.string	"_IO_read_end"
+.LASF8:
+	.string	"long int"
+.LASF82:
+	.string	"Equal"
+.LASF45:
+	.string	"__pad5"
+.LASF90:
+	.string	"Drop"
+.LASF42:
+	.string	"_wide_data"
+.LASF75:
+	.string	"AIntList"
+.LASF27:
+	.string	"_IO_buf_end"
+.LASF36:
+	.string	"_cur_column"
+.LASF50:
+	.string	"_IO_codecvt"
+.LASF13:
+	.string	"double"
+.LASF35:
+	.string	"_old_offset"
+.LASF40:
+	.string	"_offset"
+.LASF92:
+	.string	"_Length"
+.LASF85:
+	.string	"Free"
+.LASF101:
+	.string	"Reverse"
+.LASF106:
+	.string	"Member"
+.LASF105:
+	.string	"Memq"
+.LASF70:
+	.string	"closeFn"
+.LASF49:
+	.string	"_IO_marker"
+.LASF4:
+	.string	"unsigned int"
+.LASF74:
+	.string	"rest"
+.LASF76:
+	.string	"AInt_listOpsStruct"
+.LASF87:
+	.string	"FreeDeeply"
+.LASF16:
+	.string	"overflow_arg_area"
+.LASF5:
+	.string	"long unsigned int"
+.LASF80:
+	.string	"Listv"
+.LASF103:
+	.string	"Concat"
+.LASF24:
+	.string	"_IO_write_ptr"
+.LASF63:
+	.string	"data"
+.LASF107:
+	.string	"ContainsAllq"
+.LASF64:
+	.string	"OstWriteCharFn"
+.LASF66:
+	.string	"OstCloseFn"
+.LASF28:
+	.string	"_IO_save_base"
+.LASF89:
+	.string	"FreeIfSat"
+.LASF102:
+	.string	"NReverse"
+.LASF39:
+	.string	"_lock"
+.LASF97:
+	.string	"CopyTo"
+.LASF34:
+	.string	"_flags2"
+.LASF46:
+	.string	"_mode"
+.LASF93:
+	.string	"IsLength"
+.LASF83:
+	.string	"Find"
+.LASF69:
+	.string	"writeStringFn"
+.LASF110:
+	.string	"NRemove"
+.LASF62:
+	.string	"ostream"
+.LASF79:
+	.string	"List"
+.LASF99:
+	.string	"CopyDeeplyTo"
+.LASF88:
+	.string	"FreeDeeplyTo"
+.LASF25:
+	.string	"_IO_write_end"
+.LASF58:
+	.string	"CString"
+.LASF122:
+	.string	"_IO_lock_t"
+.LASF61:
+	.string	"_IO_FILE"
+.LASF12:
+	.string	"float"
+.LASF91:
+	.string	"LastCons"
+.LASF31:
+	.string	"_markers"
+.LASF117:
+	.string	"showTest"
+.LASF67:
+	.string	"ostreamOps"
+.LASF71:
+	.string	"OStreamOps"
+.LASF2:
+	.string	"unsigned char"
+.LASF127:
+	.string	"listTestSuite"
+.LASF111:
+	.string	"FillVector"
+.LASF37:
+	.string	"_vtable_offset"
+.LASF48:
+	.string	"FILE"
+.LASF17:
+	.string	"reg_save_area"
+.LASF77:
+	.string	"Cons"
+.LASF104:
+	.string	"NConcat"
+.LASF98:
+	.string	"CopyDeeply"
+.LASF73:
+	.string	"first"
+.LASF11:
+	.string	"char"
+.LASF120:
+	.string	"GNU C99 12.2.0 -mtune=generic -march=x86-64 -g -O0 -std=c99 -fasynchronous-unwind-tables"
+.LASF114:
+	.string	"Format"
+.LASF95:
+	.string	"IsLonger"
+.LASF109:
+	.string	"Position"
+.LASF10:
+	.string	"__off64_t"
+.LASF22:
+	.string	"_IO_read_base"
+.LASF53:
+	.string	"AInt"
+.LASF30:
+	.string	"_IO_save_end"
+.LASF86:
+	.string	"FreeTo"
+.LASF3:
+	.string	"short unsigned int"
+.LASF84:
+	.string	"FreeCons"
+.LASF68:
+	.string	"writeCharFn"
+.LASF126:
+	.string	"testList"
+.LASF55:
+	.string	"Length"
+.LASF41:
+	.string	"_codecvt"
+.LASF113:
+	.string	"GPrint"
+.LASF47:
+	.string	"_unused2"
+.LASF65:
+	.string	"OstWriteStringFn"
+.LASF116:
+	.string	"testIntEqual"
+.LASF94:
+	.string	"IsShorter"
+.LASF44:
+	.string	"_freeres_buf"
+.LASF19:
+	.string	"_flags"
+.LASF112:
+	.string	"Print"
+.LASF29:
+	.string	"_IO_backup_base"
+.LASF15:
+	.string	"fp_offset"
+.LASF43:
+	.string	"_freeres_list"
+.LASF118:
+	.string	"fini"
+.LASF100:
+	.string	"NMap"
+.LASF51:
+	.string	"_IO_wide_data"
+.LASF108:
+	.string	"Posq"
+.LASF54:
+	.string	"Bool"
+.LASF59:
+	.string	"OStreamPutFun"
+.LASF23:
+	.string	"_IO_write_base"
+.LASF123:
+	.string	"AInt_listPointer"
+.LASF121:
+	.string	"__va_list_tag"
+	.section	.debug_line_str,"MS",@progbits,1
+.LASF1:
+	.string	"/repo/aldor/aldor/src"
+.LASF0:
+	.string	"test/test_list.c"
+	.ident	"GCC: (Debian 12.2.0-14+deb12u1) 12.2.0"
+	.section	.note.GNU-stack,"",@progbits
